@@ -36,6 +36,14 @@ PARAMS = ["amp", "xo", "yo", "sx", "sy", "theta"]
 
 
 MUTANTS = [
+    ("eigenvalue floor taken from the smallest eigenvalue",
+     "AegeanTools/fitting.py", "    minL = 1e-9*L[-1]", "    minL = 1e-9*L[0]",
+     "C04-R13"),
+    ("theta derivative zeroed for nearly round components",
+     "AegeanTools/fitting.py",
+     "            dmdtheta = model * (sy ** 2 - sx ** 2) * \\\n",
+     "            ecc = 0 if np.isclose(sx, sy, atol=1e-3) else sy ** 2 - sx ** 2\n"
+     "            dmdtheta = model * ecc * \\\n", "C04-R1"),
     ("Fisher matrix over the not-NaN pixels", "AegeanTools/fitting.py",
      "    mask = np.where(np.isfinite(data))\n\n    # calculate the proper",
      "    mask = np.where(~np.isnan(data))\n\n    # calculate the proper",
@@ -202,6 +210,79 @@ def find_roles(prog):
     return fit, wrapper, analytic[0], dfun_call
 
 
+def r13_whitening(ctx, prog, rule="C04-R13"):
+    """the whitening matrix B = Q diag(1/sqrt(L)): eigenvalues come from
+    eigh (ASCENDING order, so L[-1] is the largest), and the floor that
+    replaces tiny / negative eigenvalues is relative to the LARGEST one"""
+    from ..core import expand_locals
+    ctx.rule(rule, "whitening matrix (fitting.Bmatrix): the eigenvalues of "
+             "the pixel covariance come from eigh (ascending), every "
+             "eigenvalue below a floor is raised to it before 1/sqrt, and "
+             "the floor is a small positive fraction of the LARGEST "
+             "eigenvalue (L[-1] / max(L)) -- a floor taken from the smallest "
+             "one clips nothing when that is tiny and is NaN-producing when "
+             "it is negative (finely sampled beams)")
+    fi = prog.func("fitting.Bmatrix")
+    mod = prog.modules[fi.module]
+    eig = [st for st in walk_no_nested(fi.node) if isinstance(st, ast.Assign)
+           and isinstance(st.value, ast.Call) and
+           (prog.dotted(mod, st.value.func) if isinstance(
+               st.value.func, ast.Attribute) else
+            prog.resolve_name(mod, norm(st.value.func))) in (
+               "scipy.linalg.eigh", "numpy.linalg.eigh",
+               "scipy.linalg.decomp.eigh", "scipy.linalg._decomp.eigh")]
+    if len(eig) != 1 or not isinstance(eig[0].targets[0], ast.Tuple):
+        raise AnalysisError("%s: `L, Q = eigh(C)` not found in Bmatrix" %
+                            rule)
+    Ln = norm(eig[0].targets[0].elts[0])
+    clips = [st for st in walk_no_nested(fi.node)
+             if isinstance(st, ast.Assign) and
+             isinstance(st.targets[0], ast.Subscript) and
+             norm(st.targets[0].value) == Ln and
+             isinstance(st.targets[0].slice, ast.Compare)]
+    ctx.check(rule, fi, "eigenvalues below the floor are raised to it",
+              len(clips) == 1 and isinstance(clips[0].targets[0].slice.ops[0],
+                                             (ast.Lt, ast.LtE)) and
+              norm(clips[0].targets[0].slice.left) == Ln and
+              norm(clips[0].targets[0].slice.comparators[0]) ==
+              norm(clips[0].value),
+              "expected one statement L[L < floor] = floor", node=fi.node)
+    if len(clips) != 1:
+        return
+    floor = expand_locals(fi.node, clips[0].value)
+    largest = [x for x in ast.walk(floor) if
+               isinstance(x, ast.Subscript) and norm(x.value) == Ln and
+               norm(x.slice).replace(" ", "") == "-1" or
+               isinstance(x, ast.Call) and
+               norm(x.func).split(".")[-1] in ("max", "amax", "nanmax") and
+               (x.args and norm(x.args[0]) == Ln or
+                isinstance(x.func, ast.Attribute) and
+                norm(x.func.value) == Ln)]
+    others = [x for x in ast.walk(floor) if isinstance(x, ast.Subscript) and
+              norm(x.value) == Ln and
+              norm(x.slice).replace(" ", "") != "-1" or
+              isinstance(x, ast.Call) and
+              norm(x.func).split(".")[-1] in ("min", "amin", "nanmin",
+                                              "mean", "median")]
+    ctx.check(rule, fi, "floor %s relative to the largest eigenvalue" %
+              norm(floor, 50), bool(largest) and not others,
+              "eigh returns the eigenvalues in ascending order: the floor "
+              "%s is not a fraction of the largest eigenvalue (%s[-1]); "
+              "taken from the smallest one it clips nothing (rounding noise "
+              "of the image is amplified by 1/sqrt of a tiny eigenvalue) or "
+              "is negative (sqrt gives NaN and the fit aborts)" %
+              (norm(floor, 50), Ln), node=clips[0])
+    # the clip comes before the eigenvalues are inverted
+    inv = [st for st in walk_no_nested(fi.node) if isinstance(st, ast.Assign)
+           and any(isinstance(c, ast.Call) and
+                   norm(c.func).split(".")[-1] == "sqrt" and
+                   Ln in names_in(c) for c in ast.walk(st.value))]
+    ctx.check(rule, fi, "clip before 1/sqrt(L)", bool(inv) and all(
+        st.lineno > clips[0].lineno for st in inv),
+        "the eigenvalues are inverted before they are clipped",
+        node=inv[0] if inv else fi.node)
+
+
 def r12_pixel_set(ctx, prog, rule="C04-R12"):
     """fit, covariance matrix and Fisher matrix are built over ONE pixel set:
     every pixel selection (numpy.where / nonzero / count_nonzero of a
@@ -268,6 +349,7 @@ def run(ctx):
     r8_pairing(ctx, prog)
     r10_noise(ctx, prog)
     r12_pixel_set(ctx, prog)
+    r13_whitening(ctx, prog)
     ctx.rule("C04-R9", "noise / covariance model: the correlation matrix is "
              "built from the model function with the pixel positions on the "
              "right axes, the two widths in (first, second) axis order and "
@@ -390,6 +472,7 @@ def r1(ctx, prog, fit, jac):
         if isinstance(s, ast.If) and vary_param(s.test):
             p = vary_param(s.test)
             sub = sym.Translator(prog, fit, dict(tr.env))
+            sub.ifexp_guards = True
             try:
                 for st in s.body:
                     if isinstance(st, ast.Expr) and \
